@@ -506,3 +506,11 @@ H("C14", "mtrl", "c14_dye_table_kind_dispatch", tier="thorough", unwind=40, time
 H("C15", "repository", "c15_filenames_noloop_concrete", tier="thorough", unwind=4, timeout=1200, kani_args=["--no-assertion-reach-checks"],
   bounds="0a/ex1/chunk2/ps3/dat3 (concrete) with unwind 4 and loop-free comparisons", encodes=["repository::Repository::index_filename", "repository::Repository::dat_filename", "alloc::fmt::format (real)"],
   no_cover="fully concrete harness without assumptions")
+
+# VERIF_SEED-chosen extra shapes (gen/params.rs; the chosen values are copied into the evidence by the driver)
+H("C12", "sha1", "c12_sha1_padding_seeded_len", timeout=600, unwind=200, bounds="SHA-1 padding, one more message length chosen by VERIF_SEED (2..189), all contents", **_PAD)
+H("C04", "sqpack_mod", "c04_patch_block_roundtrip_seeded_len", unwind=260, timeout=600, bounds="patch block write->read, one more length chosen by VERIF_SEED (2..249), all content bytes",
+  encodes=["sqpack::write_data_block_patch", "sqpack::read_data_block_patch"], cbmc_args=FS1K)
+H("C13", "bcn", "c13_image_bc1_seeded_size", unwind=18, timeout=900, bounds="BC1 image of a size chosen by VERIF_SEED (1..9 x 1..9), all data bytes, every pixel", encodes=["bcn::decode_bc1"])
+H("C05", "exd", "c05_cell_u32_seeded_offset", timeout=300, unwind=18, bounds="u32 column at an offset chosen by VERIF_SEED (0..8), all 16 row bytes", encodes=_RR)
+H("C05", "exd", "c05_cell_packed5_seeded_offset", timeout=300, unwind=18, bounds="packed bool 5 column at an offset chosen by VERIF_SEED (0..8), all 16 row bytes", encodes=_RR)
